@@ -8,7 +8,8 @@ LEAN_MODULES = ["LunaVerif.Props.C55"]
 DRIVER = "Driver/C55.lean"
 REQUIRED_THEOREMS = ["stretcher_exact", "window_any_iff", "step_out"]
 RULE = ("cases = (to_cycles, allow_delay) x strobe pattern; patterns: isolated strobes at distances around "
-        "to_cycles, bursts, random densities")
+        "to_cycles, bursts, random densities; also with the requested clock domain next to a faster unrelated one "
+        "(dom) and with the output signal supplied by the caller (given: supplied and returned signal both judged)")
 ASSUMPTIONS = ["to_cycles >= 1 (the Python function documents this precondition)"]
 PARTIAL = ""
 
@@ -33,6 +34,12 @@ def gen_cases(tier, rng):
         for d in (0, 1):
             for k in range(2 if tier == "quick" else 6):
                 out.append({"n": n, "allow_delay": d, "seed": rng.u64(), "k": k, "dom": 1})
+    # the caller hands in the signal to drive (`output=`, as car.stretch_sync_strobe_to_usb does): both that
+    # signal and the returned one must carry the stretched strobe
+    for n in ([1, 2, 3, 5] if tier == "quick" else [1, 2, 3, 4, 5, 8, 9, 17]):
+        for d in (0, 1):
+            for k in range(2 if tier == "quick" else 6):
+                out.append({"n": n, "allow_delay": d, "seed": rng.u64(), "k": k, "given": 1, "dom": k % 2})
     return out
 
 
@@ -64,14 +71,24 @@ def run_case(desc):
     m = Module()
     strobe = Signal()
     stim = desc.get("stimulus") or make_stimulus(n, Rng(desc["seed"]), desc.get("k", 0))
-    if desc.get("dom"):
-        out = stretch_strobe_signal(m, strobe, to_cycles=n, allow_delay=d, domain=m.d.usb)
-        rows = sim.run_cycles(m, [strobe], [out], stim, domain="usb", extra_clocks={"sync": 1e-6 / 3.7})
-    else:
-        out = stretch_strobe_signal(m, strobe, to_cycles=n, allow_delay=d)
-        rows = sim.run_cycles(m, [strobe], [out], stim)
-    # ---- property monitor on the real trace (independent of the Lean model)
+    kw = {"domain": m.d.usb} if desc.get("dom") else {}
+    simkw = {"domain": "usb", "extra_clocks": {"sync": 1e-6 / 3.7}} if desc.get("dom") else {}
     fails = []
+    if desc.get("given"):
+        given = Signal()
+        ret = stretch_strobe_signal(m, strobe, to_cycles=n, allow_delay=d, output=given, **kw)
+        both = sim.run_cycles(m, [strobe], [given, ret], stim, **simkw)
+        rows = [[r[0]] for r in both]
+        for t, (g, r) in enumerate(both):
+            if g != r:
+                fails.append({"cycle": t, "sig": "stretch-given-output", "what":
+                              "to_cycles=%d allow_delay=%d, output= supplied by the caller: the supplied signal is %d "
+                              "while the returned one is %d at cycle %d" % (n, d, g, r, t)})
+                break
+    else:
+        out = stretch_strobe_signal(m, strobe, to_cycles=n, allow_delay=d, **kw)
+        rows = sim.run_cycles(m, [strobe], [out], stim, **simkw)
+    # ---- property monitor on the real trace (independent of the Lean model)
     delay = 1 if (d and n > 1) else 0
     s = [r[0] for r in stim]
     for t, (o,) in enumerate(rows):
@@ -81,5 +98,6 @@ def run_case(desc):
                           "to_cycles=%d allow_delay=%d: output=%d at cycle %d but a strobe within the window says %d"
                           % (n, d, o, t, want)})
             break
-    tags = ["n=%d" % n if n < 4 else "n>=4", "delay=%d" % d, "domain=usb" if desc.get("dom") else "domain=sync"]
+    tags = ["n=%d" % n if n < 4 else "n>=4", "delay=%d" % d, "domain=usb" if desc.get("dom") else "domain=sync",
+            "output=given" if desc.get("given") else "output=returned"]
     return Case([n, int(d)], stim, rows, fails, tags, desc, ["strobe"], ["output"])
